@@ -38,6 +38,7 @@ type Harness struct {
 	Quick   string `json:"quick"`   // VERIF_BOUND for quick tier
 	Thorough string `json:"thorough"`
 	Race    bool   `json:"race"`
+	Gen     string `json:"gen"` // generator for placeholders in the harness file
 	Note    string `json:"note"`
 }
 
@@ -131,7 +132,7 @@ func cmdCheck(args []string) {
 		units = append(units, e.unitsFor(fn, con)...)
 	}
 	sort.Slice(units, func(i, j int) bool { return units[i].Name < units[j].Name })
-	if len(units) < cfg.MinUnits || len(units) == 0 && len(cfg.Statics) == 0 {
+	if len(units) < cfg.MinUnits || len(units) == 0 && len(cfg.Statics) == 0 && len(cfg.Bounded) == 0 {
 		undecided("only %d units under contract (expected >= %d): contracts missing", len(units), cfg.MinUnits)
 	}
 	known := loadKnown(*verif)
@@ -458,6 +459,14 @@ func runHarness(h Harness, repo, verif, tier string, seed int, obligation string
 		return res
 	}
 	defer os.RemoveAll(tmp)
+	if h.Gen != "" {
+		gsrc, gerr := generateHarness(h.Gen, src, tmp, repo)
+		if gerr != nil {
+			res.err = "harness generation: " + gerr.Error()
+			return res
+		}
+		src = gsrc
+	}
 	ov := map[string]map[string]string{"Replace": {dst: src}}
 	js, _ := json.Marshal(ov)
 	ovf := filepath.Join(tmp, "overlay.json")
